@@ -59,7 +59,12 @@ func (v valueReader) Read(r io.Reader) ([]byte, error) {
 	if err != nil {
 		return nil, fmt.Errorf("read value: %s", err)
 	}
-	return append([]byte(sig), data...), err
+	var buf bytes.Buffer
+	if err = basic.WriteString(sig, &buf); err != nil {
+		return nil, fmt.Errorf("write signature: %s", err)
+	}
+	buf.Write(data)
+	return buf.Bytes(), nil
 }
 
 type varReader struct {
